@@ -25,6 +25,7 @@ func backward(edge *backwardEdge) (err error) {
 		gctx.bpdirty = true
 	}
 
+	noteRule()
 	grad, err := edge.gradFn()
 	if err != nil {
 		return
